@@ -137,6 +137,24 @@ def probes() -> list:
                              C("progress", i=[0, 5, 2, 1], t=[[]], s=["dot"], b=[True]), C("progress", i=[0, 1, 2, 1], t=[[]], s=["pipe"], b=[True])], "probe": None},
         {"g": G(16, 2, "parallel", True), "h": [C("brightness", i=[300]), C("backlight", b=[False]), C("brightness", i=[40]), C("display", b=[True]),
                                                 C("glyph", i=[0], t=[[0, 2, 5, 8, 8, 5, 2, 255]])], "probe": None},
+        # the same call again after something else has written over its cells (a call draws what it is told to draw, whatever was
+        # drawn before); the same call on two displays of one wiring; a label swapped for another one of the same length
+        {"g": G(16, 2), "h": [C("progress", i=[0, 7, 10, 16], t=[[]], s=["hash"], b=[True]), C("line", i=[0], t=[txt("over")], s=["left"], b=[True]),
+                              C("progress", i=[0, 7, 10, 16], t=[[]], s=["hash"], b=[True])], "probe": None},
+        {"g": G(16, 2), "h": [C("progress", i=[1, 3, 10, 8], t=[txt("ab")], s=["block"], b=[True]), C("clear"), C("progress", i=[1, 3, 10, 8], t=[txt("ab")], s=["block"], b=[True]),
+                              C("progress", i=[1, 3, 10, 8], t=[txt("cd")], s=["block"], b=[True])], "probe": None},
+        {"g": G(16, 2, "i2c"), "h": [C("progress", i=[0, 7, 10, 16], t=[[]], s=["hash"], b=[True]), C("write", i=[2, 0], t=[txt("zz")], s=["left"], b=[False]),
+                                     C("progress", i=[0, 7, 10, 16], t=[[]], s=["hash"], b=[True])], "probe": None},
+        {"g": G(16, 2, "i2c"), "h": [C("progress", i=[0, 7, 10, 16], t=[[]], s=["hash"], b=[True])], "probe": None},
+        {"g": G(16, 2, "i2c"), "h": [C("progress", i=[0, 7, 10, 16], t=[[]], s=["hash"], b=[True])], "probe": None},
+        {"g": G(16, 2), "h": [C("line", i=[1], t=[txt("same")], s=["center"], b=[True]), C("clear"), C("line", i=[1], t=[txt("same")], s=["center"], b=[True]),
+                              C("message", t=[txt("t"), txt("b")], s=["left", "left"], b=[True, True, True]), C("clear"),
+                              C("message", t=[txt("t"), txt("b")], s=["left", "left"], b=[True, True, True])], "probe": None},
+        # wide displays (the property covers up to 40 columns): a long row is cleared to its end
+        {"g": G(40, 2), "h": [C("line", i=[0], t=[txt("0123456789012345678901234567890123456789")], s=["left"], b=[True]), C("line", i=[0], t=[txt("short")], s=["left"], b=[True]),
+                              C("write", i=[36, 1], t=[txt("tail")], s=["left"], b=[True]), C("progress", i=[1, 1, 10, 8], t=[[]], s=["hash"], b=[True])], "probe": None},
+        {"g": G(33, 1, "i2c"), "h": [C("write", i=[30, 0], t=[txt("xyz")], s=["left"], b=[True]), C("line", i=[0], t=[txt("a")], s=["right"], b=[True]),
+                                     C("line", i=[0], t=[txt("b")], s=["left"], b=[True])], "probe": None},
     ]
 
 
